@@ -338,6 +338,10 @@ func (x *VC) evID(e *SExpr, env *SEnv) *Val {
 	if v, ok := env.vars[n]; ok {
 		return v
 	}
+	if p, ok := x.fvPtr[n]; ok {
+		// a captured variable of the function literal under contract: its content in the state of the environment
+		return x.loadAddr(&Addr{Kind: ADeref, Base: p.T, ElemT: p.GT.(*types.Pointer).Elem()}, env.cur)
+	}
 	if n == "result" {
 		if len(env.result) == 0 {
 			x.specFail(e, "no result in this context")
